@@ -153,3 +153,15 @@ Definition any_of_data (d : ndata) : aval :=
   | DStr s => VStr s | DInt z => VInt z | DFloat r => VFloat r | DBool b => VBool b
   | DOp o => VStr (astop_value o)
   end.
+
+(* bool(v) *)
+Definition aval_truthy (v : aval) : bool :=
+  match v with
+  | VNone => false
+  | VBool b => b
+  | VInt z => negb (Z.eqb z 0%Z)
+  | VFloat r => negb (String.eqb r "0.0" || String.eqb r "-0.0")
+  | VStr s => negb (String.eqb s "")
+  | VList l => negb (py_is_nil l)
+  | VMap kv => negb (py_is_nil kv)
+  end.
